@@ -1318,113 +1318,130 @@ Proof.
 Qed.
 
 (* ------------------------------------------------------------------------------------------ *)
-(** * The control skeleton of the source (Gen/FactsC07.v, regenerated from /repo on every run)
-      is the one the model transcribes *)
+(** * What the source does (Gen/FactsC07.v, regenerated from /repo on every run by
+      tools/facts_C07.py): the control-flow paths of the flow-control functions, private helpers
+      inlined, one loop iteration deep, as sequences of effects on objects named by ROLE.  Spelling
+      (names of locals and private attributes, helpers, if/else versus early return, temporaries)
+      does not enter; these are the facts the model Model/FlowSend.v transcribes. *)
 
-Definition expected_send_data : list string :=
-  [ "while-true(";
-      "await:self.connection.write_ready.wait";                     (* Top *)
-      "call:self._h2_connection.local_flow_control_window";         (* CheckWindow ... *)
-      "if:not window > 0(";
-        "call:self.window_updated.clear";
-        "await:self.window_updated.wait";                           (* WaitWindow *)
-        "continue";
-      ")";
-      "read:self._h2_connection.max_outbound_frame_size";
-      "builtin:min/3";                                              (* min(window, max_frame, remaining) *)
-      "if:f_pos == f_last(";
-        "call:self._h2_connection.send_data[end_stream]";
-        "call:self._h2_connection.data_to_send";
-        "call:self._transport.write";
-        "call:self.connection.data_send_process";
-        "break";                                                    (* Done *)
-      "else";
-        "call:self._h2_connection.send_data";
-        "call:self._h2_connection.data_to_send";
-        "call:self._transport.write";
-        "call:self.connection.data_send_process";
-      ")";
-    ")" ]%string.
+Definition P (l : list (list string)) : list (list (list Z)) := map (map s2z) l.
 
-Definition expected_window_updated : list string :=
-  [ "if:event.stream_id == 0(";
-      "call:self.streams.values";
-      "for:value in self.streams.values()(";
-        "call:value.window_updated.set";
-      ")";
-    "else";
-      "call:self.streams.get";
-      "if:stream is not None(";
-        "call:stream.window_updated.set";
-      ")";
-    ")" ]%string.
+(* Stream.send_data, one iteration of its loop:
+   - it starts by awaiting write_ready (pc Top), then reads the window (pc CheckWindow);
+   - window <= 0: clear window_updated, await it, and go round the loop again (the wait is re-checked);
+   - window > 0: chunk = min(window, max frame, rest); h2.send_data; data_to_send; transport.write --
+     no await anywhere after the window was read -- then either the function returns or it loops. *)
+Definition expected_send_data : list (list string) :=
+  [ [ "await:write_ready"; "h2:window_read"; "window<=0";
+      "clear:window_updated(self)"; "await:window_updated(self)"; "->loop" ];
+    [ "await:write_ready"; "h2:window_read"; "window>0"; "chunk:min{max_frame,other,window}";
+      "h2:send_data"; "h2:data_to_send"; "transport:write(h2data)"; "->exit" ];
+    [ "await:write_ready"; "h2:window_read"; "window>0"; "chunk:min{max_frame,other,window}";
+      "h2:send_data"; "h2:data_to_send"; "transport:write(h2data)"; "->loop" ] ]%string.
 
-Definition expected_settings_changed : list string :=
-  [ "if:SettingCodes.INITIAL_WINDOW_SIZE in event.changed_settings(";
-      "call:self.streams.values";
-      "for:stream in self.streams.values()(";
-        "call:stream.window_updated.set";
-      ")";
-    ")";
-    "if:SettingCodes.MAX_CONCURRENT_STREAMS in event.changed_settings(";
-      "call:self.connection.stream_close_waiter.set";
-    ")" ]%string.
+(* process_window_updated: stream id 0 sets the event of EVERY registered stream; otherwise the event of
+   the addressed stream, if it is registered *)
+Definition expected_window_updated : list (list string) :=
+  [ [ "sid!=0"; "addressed:absent"; "->exit" ];
+    [ "sid!=0"; "addressed:present"; "set:window_updated(addressed)"; "->exit" ];
+    [ "sid==0"; "set:window_updated(all)"; "->exit" ] ]%string.
 
-(* Connection.resume_writing: write_ready.set(), then -- unless the connection is closing -- flush()
-   writes whatever h2 has queued (frames queued while paused, e.g. the RST_STREAM of reset_nowait) *)
-Definition expected_resume_writing : list string :=
-  [ "call:self.write_ready.set";
-    "call:self.is_closing";
-    "if:not self.is_closing()(";
-      "call:self.flush";
-    ")" ]%string.
+(* process_remote_settings_changed: INITIAL_WINDOW_SIZE among the changed settings (whatever else the
+   frame carries) sets the event of every registered stream *)
+Definition expected_settings_changed : list (list string) :=
+  [ [ "has:INITIAL_WINDOW_SIZE"; "set:window_updated(all)"; "->exit" ];
+    [ "lacks:INITIAL_WINDOW_SIZE"; "->exit" ] ]%string.
 
-Definition expected_flush : list string :=
-  [ "call:self._connection.data_to_send";
-    "if:data(";
-      "call:self._transport.write";
-    ")" ]%string.
+(* Connection.resume_writing: write_ready.set() FIRST, then (unless closing) flush what h2 has queued;
+   Connection.flush: data_to_send, written to the transport if there is any *)
+Definition expected_resume_writing : list (list string) :=
+  [ [ "set:write_ready"; "closing"; "->exit" ];
+    [ "set:write_ready"; "not-closing"; "call:self.flush"; "->exit" ] ]%string.
+Definition expected_flush : list (list string) :=
+  [ [ "h2:data_to_send"; "->exit" ];
+    [ "h2:data_to_send"; "transport:write(h2data)"; "->exit" ] ]%string.
 
-(* every h2.send_data of send_data is followed, with nothing in between, by data_to_send and
-   transport.write: a sender never leaves a DATA frame queued in h2 across a suspension point, so
-   the flush of resume_writing writes no DATA frame of a sender (what the model assumes) *)
-Fixpoint sends_flushed (l : list (list Z)) : bool :=
-  match l with
+Lemma source_paths :
+  paths_send_data = P expected_send_data /\
+  paths_process_window_updated = P expected_window_updated /\
+  paths_process_remote_settings_changed = P expected_settings_changed /\
+  paths_connection_pause_writing = P [["clear:write_ready"; "->exit"]]%string /\
+  paths_connection_resume_writing = P expected_resume_writing /\
+  paths_connection_flush = P expected_flush /\
+  paths_protocol_pause_writing = P [["call:connection.pause_writing"; "->exit"]]%string /\
+  paths_protocol_resume_writing = P [["call:connection.resume_writing"; "->exit"]]%string.
+Proof. vm_compute. repeat split; reflexivity. Qed.
+
+(* the same content, as the individual facts the proofs lean on, checked on the generated paths *)
+Definition tok_is (s : string) (t : list Z) : bool := zlist_eqb t (s2z s).
+Definition is_await (t : list Z) : bool := starts_with (s2z "await:") t.
+Fixpoint after (s : string) (p : list (list Z)) : list (list Z) :=
+  match p with [] => [] | t :: r => if tok_is s t then r else after s r end.
+Definition has (s : string) (p : list (list Z)) : bool := existsb (tok_is s) p.
+
+(* (a) between reading the window and the h2 send + transport write there is no suspension point *)
+Definition no_await_after_window_read (p : list (list Z)) : bool :=
+  negb (has "h2:send_data" p) || negb (existsb is_await (after "h2:window_read" p)).
+(* (b) every h2.send_data is handed to the transport at once *)
+Fixpoint send_written_at_once (p : list (list Z)) : bool :=
+  match p with
   | [] => true
-  | t :: r =>
-      (if starts_with (s2z "call:self._h2_connection.send_data") t then
-         match r with
-         | a :: b :: _ => zlist_eqb a (s2z "call:self._h2_connection.data_to_send") &&
-                          zlist_eqb b (s2z "call:self._transport.write")
-         | _ => false
-         end
-       else true) && sends_flushed r
+  | t :: r => (if tok_is "h2:send_data" t then
+                 match r with a :: b :: _ => tok_is "h2:data_to_send" a && tok_is "transport:write(h2data)" b
+                            | _ => false end
+               else true) && send_written_at_once r
   end.
+(* (c) the only suspension points are write_ready (first thing in an iteration) and the stream's own
+   window_updated (right after clear(), with no send on that path), and a path that waited for credit
+   goes round the loop again: the wait is re-checked *)
+Definition waits_ok (p : list (list Z)) : bool :=
+  match p with
+  | w :: r =>
+      tok_is "await:write_ready" w &&
+      forallb (fun t => negb (is_await t) || tok_is "await:window_updated(self)" t) r &&
+      (negb (has "await:window_updated(self)" p) ||
+       (match after "clear:window_updated(self)" p with
+        | a :: e :: [] => tok_is "await:window_updated(self)" a && tok_is "->loop" e
+        | _ => false end && has "window<=0" p && negb (has "h2:send_data" p)))
+  | [] => false
+  end.
+(* (d) a positive window is never waited on, a non-positive one never sent on *)
+Definition window_branches_ok (p : list (list Z)) : bool :=
+  (negb (has "window>0" p) || (has "h2:send_data" p && negb (has "clear:window_updated(self)" p))) &&
+  (negb (has "window<=0" p) || negb (has "h2:send_data" p)) &&
+  (has "window>0" p || has "window<=0" p).
 
-Lemma source_skeleton :
-  sk_send_data = map s2z expected_send_data /\
-  sk_process_window_updated = map s2z expected_window_updated /\
-  sk_process_remote_settings_changed = map s2z expected_settings_changed /\
-  sk_connection_pause_writing = [s2z "call:self.write_ready.clear"] /\
-  sk_connection_resume_writing = map s2z expected_resume_writing /\
-  sk_connection_flush = map s2z expected_flush /\
-  sk_protocol_pause_writing = [s2z "call:self.connection.pause_writing"] /\
-  sk_protocol_resume_writing = [s2z "call:self.connection.resume_writing"].
+Lemma source_send_data_facts :
+  forallb no_await_after_window_read paths_send_data = true /\
+  forallb send_written_at_once paths_send_data = true /\
+  forallb waits_ok paths_send_data = true /\
+  forallb window_branches_ok paths_send_data = true /\
+  existsb (has "window<=0") paths_send_data = true /\
+  existsb (fun p => has "h2:send_data" p && has "->loop" p) paths_send_data = true /\
+  existsb (fun p => has "h2:send_data" p && has "->exit" p) paths_send_data = true.
 Proof. vm_compute. repeat split; reflexivity. Qed.
 
-(* between the read of the window and the h2 send there is no suspension point: in the skeleton no
-   `await:` token occurs after the `if:not window > 0(...)` block within the loop body *)
-Definition is_await (t : list Z) : bool :=
-  match t with 97 :: 119 :: 97 :: 105 :: 116 :: 58 :: _ => true | _ => false end.   (* "await:" *)
-Definition awaits_in (l : list (list Z)) : nat := length (filter is_await l).
-Lemma source_two_suspension_points :
-  awaits_in sk_send_data = 2%nat /\
-  awaits_in (skipn 8 sk_send_data) = 0%nat /\
-  nth_error sk_send_data 2 = Some (s2z "call:self._h2_connection.local_flow_control_window").
-Proof. vm_compute. repeat split; reflexivity. Qed.
+(* (e) wake-ups: every path for stream id 0 / for an INITIAL_WINDOW_SIZE change sets the event of every
+   registered stream; every path for a registered addressed stream sets that stream's event *)
+Definition wakeups_ok : bool :=
+  forallb (fun p => negb (has "sid==0" p) || has "set:window_updated(all)" p) paths_process_window_updated &&
+  forallb (fun p => negb (has "addressed:present" p) || has "set:window_updated(addressed)" p)
+          paths_process_window_updated &&
+  forallb (fun p => has "sid==0" p || has "sid!=0" p) paths_process_window_updated &&
+  forallb (fun p => negb (has "has:INITIAL_WINDOW_SIZE" p) || has "set:window_updated(all)" p)
+          paths_process_remote_settings_changed &&
+  forallb (fun p => has "has:INITIAL_WINDOW_SIZE" p || has "lacks:INITIAL_WINDOW_SIZE" p)
+          paths_process_remote_settings_changed.
+(* (f) pause clears write_ready; resume sets it before anything is flushed *)
+Definition pause_resume_ok : bool :=
+  forallb (has "clear:write_ready") paths_connection_pause_writing &&
+  forallb (fun p => match p with t :: _ => tok_is "set:write_ready" t | [] => false end)
+          paths_connection_resume_writing &&
+  forallb (has "call:connection.pause_writing") paths_protocol_pause_writing &&
+  forallb (has "call:connection.resume_writing") paths_protocol_resume_writing.
 
-Lemma source_sends_flushed_at_once : sends_flushed sk_send_data = true.
-Proof. vm_compute. reflexivity. Qed.
+Lemma source_wakeup_facts : wakeups_ok = true /\ pause_resume_ok = true.
+Proof. vm_compute. split; reflexivity. Qed.
 
 (* ------------------------------------------------------------------------------------------ *)
 (** * The connection layer (transport state, frames queued in h2, reset_nowait, re-pause inside
